@@ -9,7 +9,7 @@ from .gamma import Gamma, family
 from .hg import item, mkop
 
 A_CHOICES = [
-    [], [], [[1, [0, 1]]], [[1, [0, 2]], [2, [1, 5]]], [[2, [0, 7]]], [[1, [2]]],
+    [], [], [[1, [0, 1]]], [[1, [0, 2]], [2, [1, 5]]], [[2, [0, 7]]], [[1, [2]]], [[1, [0, 0]]],
     [[2, [1, 3, 4]]],
 ]
 
